@@ -34,6 +34,9 @@ def cases(tier, seed):
                     tiers = [2]
                 for t in tiers:
                     out.append({"what": "stack", "kind": kind, "n": n, "m": m, "tiers": t})
+    # the extrusion amount given as every kind of real scalar a script may compute
+    for amount in ("int", "np.float64", "np.int64", "np.float32", "np.array0d"):
+        out.append({"what": "stack", "kind": "extruded", "n": 2, "m": 1, "tiers": 2, "amount": amount})
     frames = sorted({0, 4, 1 + seed % 7}) if tier == "quick" else list(range(len(FRAMES)))
     for fr in frames:
         for shape in ("Cylinder", "SemiCylinder", "Frustum", "Elbow", "ExtrudedRing", "Hemisphere", "OneCoreDisk", "FourCoreDisk", "HalfDisk", "Oval", "WrappedDisk", "QuarterDisk", "QuarterSplineDisk", "HalfSplineDisk", "SplineDisk", "SplineDisk_circular"):
@@ -54,12 +57,13 @@ P1 = np.array([0.5, 1.0, 0.0])
 P2 = np.array([3.0, 2.5, 0.0])
 
 
-def make_stack(kind, n, m, tiers):
+def make_stack(kind, n, m, tiers, amount="float"):
     import classy_blocks as cb
 
     base = cb.Grid(P1, P2, n, m)
     if kind == "extruded":
-        stack = cb.ExtrudedStack(base, 2.0, tiers)
+        two = {"float": 2.0, "int": 2, "np.float64": np.float64(2.0), "np.int64": np.int64(2), "np.float32": np.float32(2.0), "np.array0d": np.array(2.0)}[amount]
+        stack = cb.ExtrudedStack(base, two, tiers)
         maps = [lambda p, k=k: p + np.array([0, 0, 2.0 / tiers * k]) for k in range(tiers + 1)]
     elif kind == "revolved":
         total = 1.2
@@ -99,7 +103,7 @@ def cell_corners(n, m, i, j, k, maps):
 
 def run_stack(case):
     n, m, tiers = case["n"], case["m"], case["tiers"]
-    stack, maps = make_stack(case["kind"], n, m, tiers)
+    stack, maps = make_stack(case["kind"], n, m, tiers, case.get("amount", "float"))
     violations = []
     execs = 0
 
@@ -254,6 +258,8 @@ def run_round(case):
         grid_faces = [f for row in sketch.grid for f in row]
         if sorted(id(f) for f in grid_faces) != sorted(id(f) for f in faces):
             bad("grid-not-a-partition-of-faces", f"{len(grid_faces)} vs {len(faces)}")
+        if sorted(id(f) for f in core + shell) != sorted(id(f) for f in faces):
+            bad("core-shell-not-a-partition", f"{len(core)} core + {len(shell)} shell faces vs {len(faces)} faces: {len(faces) - len({id(f) for f in core + shell})} faces are in neither list")
         pts = np.array([p for f in faces for p in f.point_array])
         if name == "Oval":
             c1, c2 = P([0, 0, 0]), P([0, 1.0, 0])
